@@ -132,6 +132,10 @@ impl<'a, 'tcx> Ser<'a, 'tcx> {
     fn path(&self, d: DefId) -> String {
         self.tcx.def_path_str(d)
     }
+    /// canonical id independent of re-exports: crate name + definition path
+    fn cid(&self, d: DefId) -> String {
+        format!("{}{}", self.tcx.crate_name(d.krate), self.tcx.def_path(d).to_string_no_crate_verbose())
+    }
     fn line(&self, sp: rustc_span::Span) -> u32 {
         let sm = self.tcx.sess.source_map();
         // use the outermost call-site so that macro bodies report the user line
@@ -226,7 +230,7 @@ impl<'a, 'tcx> Ser<'a, 'tcx> {
         let _ = write!(o, "{{\"t\":{}", self.ty(t));
         match t.kind() {
             ty::FnDef(did, args) => {
-                let _ = write!(o, ",\"fn\":{}", js(&self.path(*did)));
+                let _ = write!(o, ",\"fn\":{},\"cid\":{}", js(&self.path(*did)), js(&self.cid(*did)));
                 let _ = write!(o, ",\"g\":[");
                 let mut first = true;
                 for a in args.iter() {
@@ -568,7 +572,7 @@ impl<'a, 'tcx> Ser<'a, 'tcx> {
             DefKind::SyntheticCoroutineBody => "coroutine_body",
             _ => "other",
         };
-        let _ = write!(o, "{{\"id\":{},\"kind\":\"{}\"", js(&self.path(did)), kind_s);
+        let _ = write!(o, "{{\"id\":{},\"cid\":{},\"kind\":\"{}\"", js(&self.path(did)), js(&self.cid(did)), kind_s);
         let parent = tcx.opt_parent(did);
         if let Some(p) = parent {
             let _ = write!(o, ",\"parent\":{}", js(&self.path(p)));
